@@ -1,8 +1,108 @@
-/- Driver for C16 (stub). -/
+/- Driver for C16: line = "(WIRING MODE FLAVOUR EVT SRC DST (outcome*))<TAB>implObs" or
+   "(rule OK TRIG SAMEEVT STATEISDST)<TAB>implObs"; see harness/props/c16/c16.go. -/
 import ControlModel.Basic
+import ControlModel.Model.FairMQ
+import ControlModel.Spec.C16
 
 namespace Driver.C16
+open FairMQ
 
-def processLine (_line : String) : String := "UNIMPLEMENTED\t0\t-"
+/-- Names/parsers of one control mode's device vocabulary. -/
+structure Vocab (σ ε : Type) where
+  sName : σ → String
+  eName : ε → String
+  sParse : String → Option σ
+  eParse : String → Option ε
+
+def fmqVocab : Vocab FState FEvent := ⟨FState.name, FEvent.name, FState.parse?, FEvent.parse?⟩
+def directVocab : Vocab O2State O2Event := ⟨O2State.name, O2Event.name, O2State.parse?, O2Event.parse?⟩
+
+def reportedName : Option O2State → String
+  | none => ""
+  | some s => s.name
+
+def parseReported (s : String) : Option (Option O2State) :=
+  if s == "" then some none else (O2State.parse? s).map some
+
+def parseErr : String → Option ErrKind
+  | "nil" => some .nil
+  | "rejected" => some .rejected
+  | "transport" => some .transport
+  | _ => none
+
+def obsOf {σ ε : Type} (V : Vocab σ ε) (rpc : Bool) (r : Run σ ε) : SExp :=
+  .list [.atom (reportedName r.reported), .atom r.err.name,
+    .list (r.steps.map fun s => .list [.atom (V.eName s.ask.evt), .atom (V.sName s.ask.src),
+      .atom (if rpc then "-" else V.sName s.ask.dst), SExp.ofBool s.ask.args]),
+    .atom (V.sName r.final)]
+
+def parseAsk {σ ε : Type} (V : Vocab σ ε) : SExp → Option (Ask σ ε)
+  | .list [.atom e, .atom s, .atom d, a] => do
+    let src ← V.sParse s
+    let dst := if d == "-" then src else (V.sParse d).getD src
+    pure ⟨← V.eParse e, src, dst, ← a.bool?⟩
+  | _ => none
+
+/-- What the implementation did, as a `Run` (device path replayed with the input's script). -/
+def implRun {σ ε : Type} [DecidableEq σ] (V : Vocab σ ε) (D : Dev σ ε) (strict : Bool) (dev0 : σ)
+    (script : List Outcome) (impl : String) : Option (Run σ ε) :=
+  match SExp.parse impl with
+  | some (.list [.atom rep, .atom err, .list trace, .atom fin]) => do
+    let asks ← trace.mapM? (parseAsk V)
+    pure (Run.ofObs D strict dev0 script (← parseReported rep) (← parseErr err) asks (← V.sParse fin))
+  | _ => none
+
+def answer (model : SExp) (spec : Bool) (hyp : String) : String :=
+  s!"{model}\t{if spec then 1 else 0}\t{if spec then "-" else hyp}"
+
+def processRule (ok trig same isDst : SExp) (impl : String) : String :=
+  match ok.bool?, trig, same.bool?, isDst.bool? with
+  | some ok, .atom trig, some same, some isDst =>
+    let ex := trig == "EXECUTOR"
+    let err := accept ok ex same isDst
+    let st (b : Bool) := if b then "RUNNING" else "CONFIGURED"
+    let model := SExp.list [.atom (st isDst), .atom err.name]
+    let spec :=
+      match SExp.parse impl with
+      | some (.list [.atom s, .atom e]) =>
+        match parseErr e with
+        | some e => ruleOk ok ex same isDst (s == st isDst) e
+        | none => false
+      | _ => false
+    answer model spec "-"
+  | _, _, _, _ => "BADINPUT\t0\t-"
+
+def processLine (line : String) : String :=
+  match SExp.fields line with
+  | [inp, impl] =>
+    match SExp.parse inp with
+    | some (.list [.atom "rule", ok, trig, same, isDst]) => processRule ok trig same isDst impl
+    | some (.list [.atom wiring, .atom mode, .atom flavour, .atom evt, .atom src, .atom dst, .list script]) =>
+      match O2Event.parse? evt, O2State.parse? src, O2State.parse? dst,
+            script.mapM? (fun o => o.str?.bind Outcome.parse?) with
+      | some evt, some src, some dst, some script =>
+        let rpc := wiring.startsWith "rpc"
+        let fixed := wiring.endsWith "fixed"   -- compare with the model of the repaired code (notes/C16.fix.patch)
+        let strict := flavour == "strict"
+        if mode == "FAIRMQ" then
+          let m := (commitFMQ fixed evt src dst).run fmqDev strict (fmqOf src) script
+          let (spec, hyp) :=
+            match implRun fmqVocab fmqDev strict (fmqOf src) script impl with
+            | some r =>
+              (imageOk o2Of r && successOk fmqOf dst r && rollbackOk fmqDev o2Of (rollbackEvt evt) r,
+               hypOf true strict evt r)
+            | none => (false, "-")
+          answer (obsOf fmqVocab rpc m) spec hyp
+        else if mode == "DIRECT" then
+          let m := (commitDirect evt src dst).run directDev strict src script
+          let (spec, hyp) :=
+            match implRun directVocab directDev strict src script impl with
+            | some r => (imageOk some r && successOk id dst r, hypOf false strict evt r)
+            | none => (false, "-")
+          answer (obsOf directVocab rpc m) spec hyp
+        else "BADINPUT\t0\t-"
+      | _, _, _, _ => "BADINPUT\t0\t-"
+    | _ => "BADINPUT\t0\t-"
+  | _ => "BADLINE\t0\t-"
 
 end Driver.C16
